@@ -186,6 +186,11 @@ func hmacKeyedBy(ctor any, key []byte) int              { return 0 }
 func hashLenBy(ctor any) int                            { return 0 }
 func isPlainHash(h any) bool                            { return true }
 
+// unchanged(x): the addressable value x has, field by field, the value it had on entry.
+func unchanged[T any](x T) bool { return true }
+func aesKeyByte(block any, k int) byte                  { return 0 }
+func hDigestByte(st int, k int) byte                    { return 0 }
+
 // sends(): ghost counter of datagrams handed to transport.Send so far.
 func sends() int { return 0 }
 
@@ -206,6 +211,9 @@ func window(s []byte, t []byte, lo, hi int) bool { return aliases(s, t, lo, hi) 
 
 // isnew(x): the backing array of x was allocated by the function under contract.
 func isnew(x []byte) bool { return true }
+
+// isnewobj(p): p points to an object allocated during the call.
+func isnewobj[T any](p *T) bool { return p != nil }
 
 // samebase(x, y): x and y share their backing array and x starts where y starts.
 func samebase(x, y []byte) bool { return cap(x) == 0 || cap(y) == 0 || &x[:1][0] == &y[:1][0] }
